@@ -320,3 +320,26 @@ func c06GenerateEscape(c *Ctx, r *Report) {
 		r.check(ok2, "C06.R5.generate-escape", fmt.Sprintf("ReadByte:escape#%d", n), pos, "cleared", "the branch taken because the previous character was a backslash can return (%s) with the escape flag still set: the flag leaks onto the next character, so a following `$` is copied literally instead of being replaced by the iterator value", where)
 	})
 }
+
+// c06LexerRecordEnd: the lexer looks tokens up as type / class mnemonics only until the record type was seen
+// (zl.rrtype). The flag belongs to one record: it is cleared only where a record ends, i.e. on a newline outside
+// parentheses. Clearing it inside parentheses (after a comment, say) turns RDATA tokens that happen to spell a
+// mnemonic back into keywords, so the same record parses differently with and without the comment.
+func c06LexerRecordEnd(c *Ctx, r *Report) {
+	r.rule("C06.R6.lexer-record-end", 2, "zlexer clears its record-type-seen flag only outside parentheses (brace == 0)")
+	fn := c.ssaFunc("zlexer.Next")
+	if fn == nil {
+		r.cerr("C06.R6.lexer-record-end", "zlexer.Next", "function not found")
+		return
+	}
+	braceZero := Guard{Name: "zl.brace == 0", Op: "eq", A: readsField("zlexer", "brace"), B: isConstInt(0), Holds: true}
+	n := 0
+	for _, st := range storesToField(fn, "zlexer", "rrtype") {
+		if b, ok := constBool(st.Val); !ok || b {
+			continue
+		}
+		n++
+		miss := guardsMissing(fn, st.Block(), []Guard{braceZero})
+		r.check(len(miss) == 0, "C06.R6.lexer-record-end", fmt.Sprintf("zlexer.Next:rrtype=false#%d", n), c.pos(st.Pos()), "behind brace == 0", "the record-type-seen flag is cleared without zl.brace == 0 having been established: inside parentheses the record goes on, and the RDATA tokens after this point are looked up as type and class mnemonics again (`NSEC y. ( A ; c<NL> MX )` is refused)")
+	}
+}
